@@ -1,6 +1,7 @@
 package props
 
 import (
+	"math"
 	"fmt"
 	"strings"
 	"testing"
@@ -160,6 +161,10 @@ func invariants(s *jsonapi.Schema, pool []string) string {
 
 const sigC14 = "unused"
 
+// invalidKinds: no kind at all, the integers next to the valid range, far ones
+// and the extremes.
+var invalidKinds = []int{jsonapi.AttrTypeInvalid, jsonapi.AttrTypeBytes + 1, jsonapi.AttrTypeBytes + 2, 99, -1, -2, math.MaxInt32, math.MinInt64, math.MaxInt64}
+
 func TestC14Edits(t *testing.T) {
 	r := rec.For("C14Edits")
 
@@ -292,7 +297,10 @@ func TestC14Edits(t *testing.T) {
 			"AddAttr": func(t *rapid.T) {
 				tn := rapid.SampledFrom(typePool).Draw(t, "type")
 				a := jsonapi.Attr{Name: rapid.SampledFrom(attrPool).Draw(t, "name"), Nullable: rapid.Bool().Draw(t, "nullable")}
-				a.Type = rapid.SampledFrom(append([]int{jsonapi.AttrTypeInvalid, 99, -1}, gen.Kinds...)).Draw(t, "kind")
+				a.Type = rapid.SampledFrom(gen.Kinds).Draw(t, "kind")
+				if rapid.IntRange(0, 5).Draw(t, "badkind") == 0 {
+					a.Type = rapid.SampledFrom(invalidKinds).Draw(t, "invalidkind")
+				}
 
 				mt := model.find(tn)
 				wantErr := mt == nil || a.Name == "" || !validKind[a.Type]
@@ -463,7 +471,7 @@ func TestC14Regress(t *testing.T) {
 
 	t.Run("invalid-kind-nullable", func(t *testing.T) {
 		s := mk("a")
-		for _, k := range []int{jsonapi.AttrTypeInvalid, 99, -1} {
+		for _, k := range invalidKinds {
 			if err := s.AddAttr("a", jsonapi.Attr{Name: "x", Type: k, Nullable: true}); err == nil {
 				t.Fatalf("C14 violated: attribute of invalid kind %d accepted when Nullable is set", k)
 			}
